@@ -531,10 +531,13 @@ def check_compare(ctx: Ctx, rep: Report, fn: FuncInfo) -> None:
         # the key must be the localised key: hasher(auth_key, engine_id)
         kexp = norm(key) if key is not None else ""
         kp, ep, mp = role.get("key"), role.get("engine"), role.get("message")
+        # the hasher and the method are parameters of the helper (whatever their position / kind): neither is rebound
+        others = [p_ for p_ in digest_fn.params if p_ not in (kp, ep, mp) and p_ not in ddefs.assigns]
         localised = kp is not None and any(
-            isinstance(v, ast.Call) and isinstance(v.func, ast.Name) and v.func.id == digest_fn.params[0] and [norm(a) for a in v.args] == [kp, ep]
+            isinstance(v, ast.Call) and isinstance(v.func, ast.Name) and v.func.id in others and [norm(a) for a in v.args] == [kp, ep]
             for v in ddefs.all_values(kp)
         )
-        key_ok = (kexp == kp and localised) or kexp == f"{digest_fn.params[0]}({kp}, {ep})"
-        okh = key_ok and mp is not None and norm(b.get("msg", ast.Constant(None))) == mp and norm(b.get("digestmod", ast.Constant(None))) == digest_fn.params[1]
+        key_ok = (kexp == kp and localised) or any(kexp == f"{h}({kp}, {ep})" for h in others)
+        dm = b.get("digestmod")
+        okh = key_ok and mp is not None and norm(b.get("msg", ast.Constant(None))) == mp and isinstance(dm, ast.Name) and dm.id in others and f"{dm.id}(" not in kexp
     rep.check(okh, "C09-R3", digest_fn.site(), "HMAC over the message bytes, keyed with hasher(auth_key, engine_id) (the localised key), hash selected by the plug-in", key=f"{digest_fn.key}|hmac-args")
